@@ -14,7 +14,42 @@ import numpy as np
 
 from harness.core import f2b, b2f, flist, parse_flist
 
-MODEL_MODULES = ['SkyllhModel.Model.Flux', 'SkyllhModel.Generated.C13']
+MODEL_MODULES = ['SkyllhModel.Model.Flux', 'SkyllhModel.Model.FluxRvR7', 'SkyllhModel.Generated.C13']
+
+# Python callables with an executable Lean counterpart that the theorems are about and that run(ctx) compares with
+# the real callable on every run
+_FMP = 'skyllh/core/flux_model.py::'
+MODEL_MAP = {
+    _FMP + 'PowerLawEnergyFluxProfile.__call__': ['Flux.plCall', 'Flux.plCallU'],
+    _FMP + 'PowerLawEnergyFluxProfile.get_integral': ['Flux.plIntegral', 'Flux.plIntegralU'],
+    _FMP + 'CutoffPowerLawEnergyFluxProfile.__call__': ['Flux.cutoffCall', 'Flux.cutoffCallU'],
+    _FMP + 'LogParabolaPowerLawEnergyFluxProfile.__call__': ['Flux.logparCall', 'Flux.logparCallU'],
+    _FMP + 'BoxTimeFluxProfile.__init__': ['Flux.boxNew'],
+    _FMP + 'BoxTimeFluxProfile.t0': ['Flux.boxT0', 'Flux.boxSetT0'],
+    _FMP + 'BoxTimeFluxProfile.tw': ['Flux.boxTw', 'Flux.boxSetTw'],
+    _FMP + 'BoxTimeFluxProfile.__call__': ['Flux.boxCall'],
+    _FMP + 'BoxTimeFluxProfile.cdf': ['Flux.boxCdf'],
+    _FMP + 'BoxTimeFluxProfile.move': ['Flux.boxMove'],
+    _FMP + 'BoxTimeFluxProfile.get_integral': ['Flux.boxIntegral'],
+    _FMP + 'GaussianTimeFluxProfile.__init__': ['Flux.gaussNew', 'Flux.gaussNewChecked', 'Flux.gaussHalfWidth'],
+    _FMP + 'GaussianTimeFluxProfile.t0': ['Flux.gaussT0', 'Flux.gaussSetT0'],
+    _FMP + 'GaussianTimeFluxProfile.sigma_t': ['Flux.gaussSetSigma'],
+    _FMP + 'GaussianTimeFluxProfile.__call__': ['Flux.gaussCall', 'Flux.gaussShape'],
+    _FMP + 'GaussianTimeFluxProfile.cdf': ['Flux.gaussCdf'],
+    _FMP + 'GaussianTimeFluxProfile.move': ['Flux.gaussMove'],
+    _FMP + 'GaussianTimeFluxProfile.get_integral': ['Flux.gaussIntegral', 'Flux.gaussPrim', 'Flux.clip'],
+    _FMP + 'TimeFluxProfile.get_total_integral': ['Flux.Cell.totalT', 'Flux.gaussTotal'],
+    _FMP + 'FluxModel.to_internal_flux_unit': ['Flux.toInternalFlux'],
+    _FMP + 'FactorizedFluxModel.__call__': ['Flux.Heap.call', 'Flux.fluxOuter', 'Flux.evalArg'],
+    _FMP + 'FactorizedFluxModel.param_names': ['Flux.Heap.paramNames'],
+    _FMP + 'FactorizedFluxModel.get_param': ['Flux.Heap.getParam'],
+    _FMP + 'FactorizedFluxModel.set_params': ['Flux.Heap.setParams', 'Flux.Heap.setParamsV'],
+    'skyllh/core/math.py::MathFunction.set_params': ['Flux.Cell.setParams', 'Flux.setOne', 'Flux.Cell.setParamsV', 'Flux.setOneV'],
+    'skyllh/core/math.py::MathFunction.get_param': ['Flux.Cell.getParam'],
+    'skyllh/core/math.py::MathFunction.copy': ['Flux.Heap.copy', 'Flux.Heap.copySet'],
+    'skyllh/core/utils/flux_model.py::create_scipy_stats_rv_continuous_from_TimeFluxProfile':
+        ['Flux.rvNew', 'Flux.rvNorm', 'Flux.rvPdf', 'Flux.rvCdf', 'Flux.rvPdfCell', 'Flux.rvCdfCell'],
+}
 
 import collections as _coll
 BR = _coll.Counter()        # hits per branch of the modelled functions (classified on the harness side)
@@ -36,7 +71,11 @@ BRANCHES = [
     'evalE:unityE', 'evalE:pl', 'evalE:cutoff', 'evalE:logpar', 'evalE:func', 'evalT:unityT', 'evalT:box', 'evalT:gauss',
 ]
 # branches of the model that cannot be addressed through the Python interface (listed, not counted)
+from harness.c13_r7_fixtures import RV_BRANCHES, RV_BRANCHES_EXCLUDED  # noqa: E402
+BRANCHES += RV_BRANCHES
+
 BRANCHES_EXCLUDED = {
+    'rvPdf / rvCdf: scale <= 0': 'the source freezes the variable with scale=1 (generated constant rvScale)',
     'Heap.copy:none / Heap.call:none / targets:none': 'a Python call always has a live receiver object; dangling heap indices do not exist',
     'Heap.setParams: acc.1[j]? = none': 'a model always refers to existing profile objects',
     'setOne / setOneV: getAttr = none': 'param_names are validated to be properties by the param_names setter of MathFunction',
@@ -87,10 +126,47 @@ def generated(ctx):
         tol = 1e-12
         ctx.proof['generated_fallbacks'].append('GaussianTimeFluxProfile tol')
         ctx.note('C13: could not extract the default tol (%s); using 1e-12' % e)
+    rvc = _extract_rv_constants(ctx, extract)
     return ('-- generated by harness/props/c13.py from skyllh/core/flux_model.py — do not edit\n'
             'import SkyllhModel.Model.Flux\nnamespace Gen.C13\n\n'
             'def paramNames : Flux.ParamNames := {\n' + ',\n'.join(fields) + ' }\n\n'
-            'def gaussTol {F : Type} [OfScientific F] : F := %s\n\nend Gen.C13\n' % extract.lean_float(tol))
+            'def gaussTol {F : Type} [OfScientific F] : F := %s\n\n' % extract.lean_float(tol)
+            + '-- skyllh/core/utils/flux_model.py: `norm = <rvNormDefault>` before the `tot_integral != 0` test,\n'
+              '-- `.freeze(loc=<rvLoc>, scale=<rvScale>)`\n'
+            + ''.join('def %s {F : Type} [OfScientific F] : F := %s\n' % (k_, extract.lean_float(rvc[k_]))
+                      for k_ in ('rvNormDefault', 'rvLoc', 'rvScale'))
+            + '\nend Gen.C13\n')
+
+
+UFM = 'skyllh/core/utils/flux_model.py'
+_RV_RECORDED = {'rvNormDefault': 0.0, 'rvLoc': 0.0, 'rvScale': 1.0}
+
+
+def _extract_rv_constants(ctx, extract):
+    """literal constants of create_scipy_stats_rv_continuous_from_TimeFluxProfile: the initial `norm` and the
+    keywords of `.freeze(loc=, scale=)`"""
+    import ast
+    out = dict(_RV_RECORDED)
+    try:
+        f = extract.find_func(extract.parse(UFM), 'create_scipy_stats_rv_continuous_from_TimeFluxProfile')
+        got = {}
+        for node in f.body:   # top-level statements of the function only (not the nested class)
+            if isinstance(node, ast.Assign) and len(node.targets) == 1 and isinstance(node.targets[0], ast.Name) \
+                    and node.targets[0].id == 'norm' and 'rvNormDefault' not in got:
+                got['rvNormDefault'] = float(extract.literal(node.value))
+        for n_, kws in [(n_, c_.keywords) for n_, c_ in ((0, c_) for c_ in ast.walk(f) if isinstance(c_, ast.Call)
+                        and isinstance(c_.func, ast.Attribute) and c_.func.attr == 'freeze')]:
+            for k_ in kws:
+                if k_.arg in ('loc', 'scale'):
+                    got['rvLoc' if k_.arg == 'loc' else 'rvScale'] = float(extract.literal(k_.value))
+        missing = [k_ for k_ in out if k_ not in got]
+        if missing:
+            raise LookupError('not found: %s' % missing)
+        out.update(got)
+    except Exception as e:
+        ctx.proof['generated_fallbacks'].append('rv constants of utils/flux_model.py')
+        ctx.note('C13: could not extract the constants of the random-variable factory (%s); using the recorded values' % e)
+    return out
 
 
 # ------------------------------------------------------------------------------------------
@@ -1740,6 +1816,12 @@ def o_corr(ctx, case):
         if o == 'none':
             return None if not (w[0] < w[1]) else 'gaussian constructor outside its domain builds the window %r' % (w,)
         return None if _close(w, parse_flist(o)[:2], group=True) else 'gaussian constructor: implementation window %r, model %r' % (w, parse_flist(o)[:2])
+    if t == 'rv':
+        from harness import c13_r7_fixtures as r7
+        import sys as _sys
+        sus = []
+        r7.run_rv_cases(ctx, _sys.modules[__name__], _coll.Counter(), sus, cases=[case])
+        return sus[0][3] if sus else None
     if t == 'model_call':
         for _c, d in _model_call_cmp(ctx, [case]):
             if d:
@@ -2446,6 +2528,10 @@ def run(ctx):
             mv = parse_flist(o)
             if not _close(w, mv[:2], group=True):
                 suspicious.append((dict(type='gnew', spec=g_), w, mv[:2], 'gaussian constructor: implementation window %r, model %r' % (w, mv[:2])))
+    # round 7: the scipy random variable of a time profile (utils/flux_model.py) vs Model/FluxRvR7
+    from harness import c13_r7_fixtures as r7
+    import sys as _sys
+    r7.run_rv_cases(ctx, _sys.modules[__name__], BR, suspicious)
     all_lines, metas = [], []
     for h in histories:
         try:
@@ -2525,6 +2611,9 @@ def _oracle_cases_for(c):
             yield 'units', {'spec': spec, 'xs': [c['x']], 'u1': c['arg_unit'], 'u2': spec['unit']}
     elif t == 'gnew':
         yield 'update', {'spec': spec, 'ops': [['set', [['sigma_t', spec['p']['sigma_t']]]]]}
+    elif t == 'rv':
+        if 'x' in c and spec['kind'] in ('box', 'gauss'):
+            yield 'rv', {'spec': spec, 'ts': [c['x']], 'pd': c['pd']}
     elif t == 'model_call':
         yield 'model_call', {k_: v_ for k_, v_ in c.items() if k_ != 'type'}
     elif t == 'outer':
@@ -2546,7 +2635,7 @@ def _oracle_cases_for(c):
 
 
 MANIFEST = dict(
-    text=('73 Lean theorems over the reals about Model/Flux.lean: power-law closed form = integral of the profile (HasDerivAt + FTC, both '
+    text=('83 Lean theorems over the reals about Model/Flux.lean and Model/FluxRvR7.lean (scipy random variable of a time profile: wrapper = specification for the freeze constants of the source, density normalised for box / gaussian, stale-variable counterexample): power-law closed form = integral of the profile (HasDerivAt + FTC, both '
           'branches), box and gaussian closed forms = integral of the windowed profile values for every interval (gaussian for any erf with '
           'derivative 2/sqrt(pi) exp(-x^2); for constructed objects and after any history without window hypothesis), additivity, cdf = partial / '
           'total integral with total > 0, unit invariance with the unit as state (incl. the unit == own-unit branch), internal-flux-unit factors '
